@@ -162,6 +162,11 @@ ObsAspects(S, r, ev) ==
   \cup (IF "bsel" \in DOMAIN o THEN SelAspects(T, T.brk, o.bsel, "break") ELSE {})
   \cup (IF "sel" \in DOMAIN o THEN (IF o.sel = T.sel THEN {} ELSE {"selected"}) ELSE {})
   \cup (IF "before" \in DOMAIN o THEN (IF o.before = Len(S.hist) + 0 * Len(S.conns) THEN {} ELSE {"pacing"}) ELSE {})
+  \cup (IF ev.in.e = "eval"
+        THEN (IF ~o.accepted THEN {"eval.rejected"}
+              ELSE IF Len(o.msel) # Len(T.hist) THEN {"eval.len"}
+              ELSE IF \A j \in 1..Len(T.hist) : o.msel[j] = Sem(ev.in.ast, T.hist[j]) THEN {} ELSE {"eval.sem"})
+        ELSE {})
   \* the properties proper, on the specification's own states
   \cup (IF StateOk(T) THEN {} ELSE {"PROP.state"})
   \cup (IF StepOk(S, T, ev.in) THEN {} ELSE {"PROP.step"})
